@@ -225,3 +225,23 @@ Proof.
     apply sin_lt_0_var; lra. }
   intro E. lra.
 Qed.
+
+(* full-span surface: the chord factor falls linearly from 1 at the centre (y = 0) to the taper ratio at BOTH tips (|y| = half span) *)
+Lemma taper_factor_full npx npy rap t (m : nat -> nat -> nat -> R) j :
+  let y := ref_axis npx rap m j 1%nat in let hs := (ref_axis npx rap m npy 1%nat - ref_axis npx rap m 0%nat 1%nat) / 2 in
+  0 < hs -> - hs <= y <= hs ->
+  taper_factor npx npy false rap t m j = 1 + (t - 1) * (Rabs y / hs).
+Proof.
+  intros y hs Hs [H1 H2]. unfold taper_factor, interp3, o2. rops.
+  change (ref_axis npx rap m j 1%nat) with y.
+  replace (- (ref_axis npx rap m npy 1%nat - ref_axis npx rap m 0%nat 1%nat) / 2) with (- hs) by (unfold hs; field).
+  change ((ref_axis npx rap m npy 1%nat - ref_axis npx rap m 0%nat 1%nat) / 2) with hs.
+  clearbody y hs.
+  destruct (Rleb y (- hs)) eqn:E1.
+  - apply Rleb_true in E1. assert (y = - hs) by lra. subst y. rewrite Rabs_Ropp, Rabs_pos_eq by lra. field. lra.
+  - apply Rleb_false in E1. destruct (Rleb hs y) eqn:E2.
+    + apply Rleb_true in E2. assert (y = hs) by lra. subst y. rewrite Rabs_pos_eq by lra. field. lra.
+    + apply Rleb_false in E2. destruct (Rltb y 0) eqn:E3.
+      * apply Rltb_true in E3. rewrite Rabs_left by lra. field. lra.
+      * apply Rltb_false in E3. rewrite Rabs_pos_eq by lra. field. lra.
+Qed.
